@@ -745,7 +745,17 @@ def encode(c):
         out += [0]
     else:
         out += [1] + C.enc_q(Fraction(c['ps'][0])) + C.enc_q(Fraction(c['ps'][1]))
+    tl = want_tilt(c)
+    out += [len(tl)]
+    for x, y in tl:
+        out += C.enc_q(x) + C.enc_q(y)
     return out
+
+
+def want_tilt(c):
+    """(x, y) attribute values of the Tilt objects the case puts on the plane"""
+    lentil = C.import_lentil()
+    return [[float(t.x), float(t.y)] for t in (lentil.Tilt(x=x, y=y) for x, y in c.get('tilt', []))]
 
 
 UNKNOWN = None
@@ -799,7 +809,9 @@ def decode_one(r):
     t = r.z()
     mask = ('mono', oarr()) if t == 1 else ('cube', r.lst(oarr))
     ps = r.opt(lambda: (r.q(), r.q()))
-    return {'amp': amp, 'opd': opd, 'mask': mask, 'ps': ps}
+    tilt = r.lst(lambda: [r.q(), r.q()])
+    slices = r.lst(lambda: [r.z(), r.z(), r.z(), r.z()])
+    return {'amp': amp, 'opd': opd, 'mask': mask, 'ps': ps, 'tilt': tilt, 'slice': slices}
 
 
 # ------------------------------------------------------------------ implementation side
@@ -951,6 +963,17 @@ def call_plane(p, c):
     return p.rescale(arg_of(c)) if c['op'] == 'rescale' else p.resample(arg_of(c))
 
 
+def slice_values(p):
+    """plane._slice (what multiply cuts out of amplitude / opd / mask): [r0, r1, c0, c1] per mask / segment"""
+    out = []
+    for sl in getattr(p, '_slice', []):
+        try:
+            out.append([int(sl[0].start), int(sl[0].stop), int(sl[1].start), int(sl[1].stop)])
+        except (TypeError, AttributeError, IndexError):
+            out.append(None)
+    return out
+
+
 def tilt_values(p):
     return [[float(t.x), float(t.y)] for t in p.tilt]
 
@@ -972,7 +995,7 @@ def run_one(p, c, fresh=False):
         res = {'amp': Arr(q.amplitude), 'opd': Arr(q.opd), 'mask': Arr(q.mask),
                'mask_dtype': str(np.asarray(q.mask).dtype),
                'ps': None if q.pixelscale is None else [float(q.pixelscale[0]), float(q.pixelscale[1])],
-               'tilt': tilt_values(q),
+               'tilt': tilt_values(q), 'slice': slice_values(q),
                'untouched': same_snapshot(before, after), 'shares_memory': bool(shares),
                'in_amp': Arr(before[0]), 'in_opd': Arr(before[1]), 'in_mask': Arr(before[2])}
         if fresh:       # the same call on a fresh plane with equal attributes: no history
@@ -1193,9 +1216,7 @@ def encode_util(c):
     out += [0] if sh is None else ([1, sh] if isinstance(sh, int) else [2, sh[0], sh[1]])
     if mk is None:
         out += [0]
-    elif mk.dtype.kind != 'f':
-        out += [2]
-    else:
+    else:       # an integer / bool mask is cast to float64 by the code: the model ignores the dtype flag
         out += [1] + enc_arr(mk) + C.enc_q(EPS32 if mk.dtype == np.float32 else EPS64)
     return out + [1 if c['unitary'] else 0]
 
@@ -1363,6 +1384,11 @@ def compare(c, impl, model):
             msg = cmp_arr(name, a, val, sc * tol_of(inp) / TOL)
             if msg:
                 return msg
+    if [[Fraction(x), Fraction(y)] for x, y in impl['tilt']] != model['tilt']:
+        return f"tilt {impl['tilt']} but the model carries {[[float(x), float(y)] for x, y in model['tilt']]} over"
+    s_ = the_scale(c)
+    if s_ is not None and dyadic_small(s_) and not mask_has_ties(c, s_) and impl['slice'] != model['slice']:
+        return f"plane._slice = {impl['slice']} but the model gives the bounding boxes {model['slice']}"
     # mask
     kind, val = model['mask']
     a = impl['mask'].a
@@ -1428,6 +1454,11 @@ def nn_masks(c, s):
 def vanishing_segment(c, s):
     segs, _, _ = nn_masks(c, s)
     return any(not a.any() for a in segs)
+
+
+def mask_has_ties(c, s):
+    """some output coordinate lies exactly half-way between two input samples (the nearest-neighbour choice is not pinned)"""
+    return (any(tie_flags(c['n'], out_size(c, c['n'], s), s)) or any(tie_flags(c['m'], out_size(c, c['m'], s), s)))
 
 
 def node_index(n, N, s, j):
@@ -1518,6 +1549,14 @@ def oracle(c, impl):
                         'requested grid: ' + impl['interop'])
     if impl.get('fresh_diff'):
         return ('resample(t) is not rescale(pixelscale/t): ' if c['op'] == 'resample' else 'the call is not repeatable: ') + impl['fresh_diff']
+    # glue: plane._slice is the tight bounding box of the returned mask / of every segment
+    segs_ = impl['mask'].a if impl['mask'].a.ndim == 3 else impl['mask'].a[None]
+    boxes = []
+    for a_ in segs_:
+        rr, cc = np.where(a_.any(axis=1))[0], np.where(a_.any(axis=0))[0]
+        boxes.append([int(rr[0]), int(rr[-1]) + 1, int(cc[0]), int(cc[-1]) + 1] if rr.size else None)
+    if impl['slice'] != boxes:
+        return f"plane._slice = {impl['slice']} is not the bounding box {boxes} of the returned mask"
     # mask: binary integers, same segment structure
     mi = impl['mask'].a
     in_mask = impl['in_mask'].a
@@ -1576,24 +1615,6 @@ def oracle(c, impl):
         if np.ndim(amp) == 2 and not np.allclose(impl['amp'].a, amp, rtol=0, atol=tol_of(amp) * np.max(np.abs(amp))):
             return 'rescale(1) is not the identity on the amplitude'
     return None
-
-
-def known_match(f, c, impl):
-    if f['id'] == 'C17-explicit-int-mask':
-        return c.get('op') == 'util' and c.get('umask') in ('intones', 'bool') and impl.get('err') == 'ValueError'
-    return False
-
-
-def replay_known(f):
-    if f['id'] == 'C17-explicit-int-mask':
-        lentil = C.import_lentil()
-        img = np.arange(16).reshape(4, 4)
-        try:
-            lentil.rescale(img, 2, mask=np.ones_like(img))      # the documented way to skip the masking operation
-        except ValueError:
-            return True
-        return False
-    return False
 
 
 # ------------------------------------------------------------------ numeric tests (labelled as tests)
